@@ -122,6 +122,15 @@ def pixelFt (sinc : K → K) (fx fy width_x width_y : K) : K := sinc (fx * width
 def olpfFt (cos : K → K) (fx fy width_x width_y : K) : K :=
   cos ((Num.ofInt 2 * width_x) * fx) * cos ((Num.ofInt 2 * width_y) * fy)
 
+/-- `objects.slit_ft(width_x, width_y, fx, fy)`; `hasx`/`hasy` = "width_x is not None" / "width_y is not None"
+(crossed slits: the SUM of the two sinc's; one slit: its sinc) -/
+def slitFt (sinc : K → K) (fx fy width_x width_y : K) (hasx hasy : Bool) : K :=
+  if hasx && hasy then sinc (fx * width_x) + sinc (fy * width_y)
+  else if hasx && !hasy then sinc (fx * width_x) else sinc (fy * width_y)
+
+/-- `objects.pinhole_ft(radius, fr) = jinc(fr · (radius · 2π))` -/
+def pinholeFt (jinc : K → K) (pi fr radius : K) : K := jinc (fr * ((radius * Num.ofInt 2) * pi))
+
 end tfs
 
 /-! ## materialised arrays and the O(N²) DFT instance of `FOps` (driver) -/
